@@ -659,6 +659,67 @@ def guardedSlice (slen glen lo hi : Int) : SliceOut :=
 def rangeSlice (len i : Int) : SliceOut :=
   if 0 ≤ i ∧ i < len then (if 0 ≤ i ∧ i ≤ len ∧ i + 1 ≤ len then .ok else .trap) else .err
 
+/-! ## 3c. Slice / index expressions of the parser and the node constructors (tick/ast) -/
+
+/-- The REVIEWED inventory of slice / index expressions in tick/ast/parser.go and tick/ast/node.go:
+(function, source text, why it cannot go out of range). The extractor lists what the source contains
+now; anything not in this list (e.g. a new `comment[len("//"):]` in `newComment`) breaks
+`Kap.Props.C05.ast_slice_sites_reviewed`. The reasons are review notes, not proofs; those that rest on the
+shape of a token's text are backed by the lexer theorems and the exhaustive structural enumeration. -/
+def reviewedAstSites : List (String × String × String) := [
+  ("parser.hasNewLine", "p.text[start:end]", "positions of tokens / nodes, start ≤ end (lexer_in_bounds)"),
+  ("parser.unexpected", "p.text[tok.pos:stop]", "tok.pos ≤ stop ≤ len(text) by the clamps above"),
+  ("parser.unexpected", "p.text[start:tok.pos]", "0 ≤ start ≤ tok.pos by the clamps above"),
+  ("parser.unexpected", "p.text[start:stop]", "start ≤ tok.pos ≤ stop"),
+  ("parser.unexpected", "expected[i]", "range index"),
+  ("parser.unexpected", "expectedStrs[i]", "range index, same length"),
+  ("parser.program", "p.comments[1]", "fixed array [2]"),
+  ("parser.program", "p.comments[0]", "fixed array [2]"),
+  ("parser.precedence", "precedence[look.typ]", "behind IsExprOperator(look.typ): the table covers all operators"),
+  ("parser.precedence", "precedence[op.typ]", "op passed IsExprOperator"),
+  ("parser.precedence", "p.text[lhsEnd-1]", "loop guard lhsEnd > lhs.Position() ≥ 0, lhsEnd ≤ op.pos < len"),
+  ("parser.peek", "p.token[0]", "fixed array [2]"),
+  ("parser.peek", "p.token[1]", "fixed array [2]"),
+  ("parser.peek", "p.token[p.peekCount-1]", "behind peekCount > 0, peekCount ≤ 2"),
+  ("parser.peek", "p.comments[0]", "fixed array [2]"),
+  ("parser.peek", "p.comments[1]", "fixed array [2]"),
+  ("parser.next", "p.token[p.peekCount]", "peekCount ∈ {0,1} after the decrement / refill"),
+  ("parser.next", "p.token[0]", "fixed array [2]"),
+  ("parser.next", "p.comments[0]", "fixed array [2]"),
+  ("parser.consumeComment", "p.comments[p.peekCount]", "peekCount ∈ {0,1}"),
+  ("parser.lfunction", "args[l-1]", "behind l > 0"),
+  ("parser.function", "args[l-1]", "behind l > 0"),
+  ("binaryOperandNeedsParens", "precedence[op]", "op is the operator of a parsed BinaryNode"),
+  ("binaryOperandNeedsParens", "precedence[b.Operator]", "operator of a parsed BinaryNode"),
+  ("newString", "txt[0]", "a string token is never empty (it starts with its quote)"),
+  ("newString", "txt[0:3]", "behind len(txt) >= 6"),
+  ("newString", "txt[3 : len(txt)-3]", "behind len(txt) >= 6"),
+  ("newString", "txt[1 : len(txt)-1]", "a string token holds both quotes: len ≥ 2"),
+  ("newString", "literal[last:i]", "last ≤ i < len"),
+  ("newString", "literal[last:]", "last ≤ len"),
+  ("newString", "literal[i]", "loop index"),
+  ("newString", "literal[i+1]", "behind i+1 < len(literal)"),
+  ("newRegex", "txt[1 : len(txt)-1]", "a regex token holds both slashes: len ≥ 2"),
+  ("newRegex", "literal[last:i]", "last ≤ i < len"),
+  ("newRegex", "literal[last:]", "last ≤ len"),
+  ("newRegex", "literal[i]", "loop index"),
+  ("newRegex", "literal[i+1]", "behind i+1 < len(literal)"),
+  ("newReference", "txt[1 : len(txt)-1]", "a reference token holds both quotes: len ≥ 2"),
+  ("newReference", "literal[last:i]", "last ≤ i < len"),
+  ("newReference", "literal[last:]", "last ≤ len"),
+  ("newReference", "literal[i]", "loop index"),
+  ("newReference", "literal[i+1]", "behind i+1 < len(literal)"),
+  ("newNumber", "text[0]", "behind text == \"\" return"),
+  ("ProgramNode.Equal", "on.Nodes[i]", "behind the length comparison"),
+  ("ProgramNode.Equal", "n.Nodes[i]", "range index"),
+  ("ListNode.Equal", "on.Nodes[i]", "behind the length comparison"),
+  ("ListNode.Equal", "n.Nodes[i]", "range index"),
+  ("FunctionNode.Equal", "on.Args[i]", "behind the length comparison"),
+  ("FunctionNode.Equal", "n.Args[i]", "range index")]
+
+def astSiteReviewed (s : String × String) : Bool :=
+  reviewedAstSites.any (fun r => r.1 == s.1 && r.2.1 == s.2)
+
 /-! ## 4. JSON node factory -/
 
 inductive GetNode where
